@@ -55,6 +55,11 @@ impl VerifiableHeaderPatch for VerifiableHeader {
     fn patched_is_valid(&self, mmr_activated_epoch_number: EpochNumber) -> bool {
         let mmr_activated_epoch = EpochNumberWithFraction::new(mmr_activated_epoch_number, 0, 1);
         let has_chain_root = self.header().epoch() > mmr_activated_epoch;
+        // The genesis block has no parent: its epoch is never later than the activated epoch,
+        // but a chain root which is not committed by any block should not be accepted.
+        if self.header().is_genesis() && !self.parent_chain_root().is_default() {
+            return false;
+        }
         if has_chain_root {
             if self.header().is_genesis() {
                 if !self.parent_chain_root().is_default() {
